@@ -98,14 +98,15 @@ def _run_sub(args, env_extra=None, timeout=300):
     return subprocess.run(args, cwd=tlc.VERIF, env=env, stdout=subprocess.PIPE, stderr=subprocess.PIPE, timeout=timeout)
 
 
-def two_lives_leg(c, same_object=False, register=True):
+def two_lives_leg(c, same_object=False, register=True, service_empty=False):
     """deep.start() / shutdown() twice in one process against a service whose configuration does not change: the second
     agent knows no configuration yet, so it must ask for it (hash 0), get it and act on it. Trace judged by Trace_AgentIT.
 
     same_object: the later lives are Deep.start() on the SAME agent object, which still holds the configuration (the
     service answers 'no change') and a tracepoint registered in code during the first life: both must be acted on again."""
     p = _run_sub([sys.executable, '-m', 'harness.twolives', '3'] +
-                 ([('same' if register else 'same_noreg')] if same_object else []), timeout=180)
+                 ([('same_regonly' if service_empty else 'same' if register else 'same_noreg')] if same_object else []),
+                 timeout=180)
     res = None
     for line in p.stdout.decode('utf-8', 'replace').split('\n'):
         if line.startswith('RESULT '):
@@ -117,7 +118,7 @@ def two_lives_leg(c, same_object=False, register=True):
     c.states += r.distinct
     c.transitions += r.generated
     c.traces_validated += 1
-    c.note_case(key=('two-lives', same_object, register), nontrivial=True)
+    c.note_case(key=('two-lives', same_object, register, service_empty), nontrivial=True)
     problems = []
     if 0 not in accepted or not r.ok:
         at = progress.get(0, 1)
